@@ -87,6 +87,7 @@ func TestVerif_C17(t *testing.T) {
 	for ep := 0; ep < evid.Pick(12, 300) && rec.Violations() < 30; ep++ {
 		vfC17Lifecycle(rec, ep)
 	}
+	vfC17UnexportOwnServer(rec)
 	for ep := 0; ep < evid.Pick(4, 100) && rec.Violations() < 30; ep++ {
 		vfC17Refused(rec, ep)
 		vfC17CloseInFlight(rec, ep)
@@ -1020,4 +1021,61 @@ func vfC17IdleAfterReconfiguration(rec *evid.Rec, ep int) {
 		rec.Violate("C17/idle-connection-not-reaped-after-idle-timeout-was-raised-and-lowered", diag+" "+fmt.Sprintf("IdleTimeout %v -> %v -> %v at runtime: an idle connection is still open after %v; a server with IdleTimeout %v that was never reconfigured reaped its idle connection after %v", final, detour, final, bound, final, tc), nil)
 	}
 	rec.Distinct(fmt.Sprintf("idle-after-reconfiguration|final=%v|detour=%v", final, detour))
+}
+
+// vfC17UnexportOwnServer: the export is served by a Server the application built itself (NewServer +
+// SetHandler), not by Export(). Unexport must still release every handle and empty the caches - the
+// first time, and again after new state has accumulated.
+func vfC17UnexportOwnServer(rec *evid.Rec) {
+	for _, listening := range []bool{false, true} {
+		fs := refs.New()
+		fs.PlantDir("/d", 0777, 0, 0)
+		fs.PlantFile("/d/f", []byte("x"), 0666, 0, 0)
+		srv, err := vfNewSrv(fs, ExportOptions{AttrCacheTimeout: time.Hour, EnableDirCache: true, CacheNegativeLookups: true})
+		if err != nil {
+			rec.Infra(err.Error())
+			return
+		}
+		if listening {
+			if err := srv.srv.Listen(); err != nil {
+				rec.Inconclusive(1)
+				srv.Close()
+				continue
+			}
+		}
+		populate := func() bool {
+			c := srv.client()
+			root, err := c.mnt("/")
+			if err != nil {
+				return false
+			}
+			dl, _ := c.lookup(root, "d")
+			if dl == nil || dl.Status != 0 {
+				return false
+			}
+			c.lookup(vfFH(dl.FH), "f")
+			c.lookup(vfFH(dl.FH), "absent")
+			c.readdirplus(vfFH(dl.FH), 0, 8192, 32768)
+			c.readdir(root, 0, 8192)
+			return srv.nfs.fileMap.Count() > 0 && srv.nfs.attrCache.Size() > 0
+		}
+		for round := 1; round <= 2; round++ {
+			if !populate() {
+				rec.Inconclusive(1)
+				break
+			}
+			if listening && round == 1 {
+				srv.srv.Stop()
+			}
+			rec.Eval(1)
+			if err := srv.nfs.Unexport(); err != nil {
+				rec.Violate("C17/error-from-shutdown-call/Unexport/own-server", err.Error(), nil)
+			}
+			if h, a, d := srv.nfs.fileMap.Count(), srv.nfs.attrCache.Size(), srv.nfs.dirCache.Size(); h != 0 || a != 0 || d != 0 {
+				rec.Violate("C17/state-left-after-Unexport/server-not-created-by-Export", fmt.Sprintf("Unexport #%d on an export served by the application's own Server (listening: %v): handles=%d attr-cache=%d dir-cache=%d", round, listening, h, a, d), nil)
+			}
+			rec.Distinct(fmt.Sprintf("unexport-own-server|listening=%v|round=%d", listening, round))
+		}
+		srv.Close()
+	}
 }
